@@ -1,13 +1,15 @@
-"""C11 — an expression has one value, whichever way the caller asks for it (DESIGN.md §5 C11, design/C11.md).
+"""C11 — an expression has one value, whichever way the caller asks for it (design/C11.md).
 
-translator:     translate/c11_dispatch.py: the six XPath::executeMore switches + the EP-specialised overloads they call
-                -> lean/XalanModel/Generated/C11_Dispatch.lean (regenerated from the working tree on every run)
-proof:          lean/XalanModel/Props/C11.lean over the regenerated tables (decide over the complete finite table,
-                lifted to all expressions by induction)
-correspondence: harness/c11_entrypoints.cpp calls the six public XPath::execute overloads on the same compiled
-                expression/context; lean/Driver/C11.lean runs `evalAs Generated.table` on the same expression.
-                On every implementation reply the property itself is evaluated (independent of the model):
-                every specialised result = standard conversion of the generic result.
+translators:    translate/c11_dispatch.py (six executeMore switches + EP overloads), c11_token.py (XToken members, static and
+                virtual conversions), c11_caches.py (memo members of recycled XObjects), c11_callers.py (execute overload per
+                XSLT caller) -> lean/XalanModel/Generated/C11_*.lean, regenerated from the working tree on every run
+proof:          lean/XalanModel/Props/C11.lean over the regenerated tables (decide over the complete finite tables, lifted to
+                all expressions by mutual structural induction)
+correspondence: harness/c11_entrypoints.cpp: the six public XPath::execute overloads (+ charactersRaw) on one persistent
+                execution context / object factory; lean/Driver/C11.lean runs `evalAs Generated.table` on the same expression;
+                the same expressions through a stylesheet (xsl:variable, xsl:if, xsl:when, AVT, xsl:value-of, xsl:number,
+                xsl:for-each, xsl:sort) with the working tree's Xalan CLI.  On every implementation reply the property itself
+                is evaluated, independent of the model.
 """
 import json
 import os
@@ -19,22 +21,29 @@ from vlib.common import Rng
 
 CLAIMED = True
 LEVEL = "proof"
-TECHNIQUE = ("Lean 4 proof over a model regenerated from the source (translator parses the six executeMore switches and "
-             "the overloads they call into a dispatch table; coherence decided over the complete table and lifted to all "
-             "expressions by induction) + correspondence run of the six public XPath::execute overloads")
-LEVEL_TEXT = ("Machine-checked: for the dispatch tables regenerated from XPath.cpp/XPath.hpp on every run, every op code the "
-              "generic switch handles is handled by the other five (dispatch_total); every (entry point, op code) case "
-              "delivers exactly the standard conversion of the generic value, string results appended "
-              "(dispatch_coherent + dispatch_sound); lifted by induction to every expression built from the 41 expression "
-              "op codes (eval_ep_eq_conv_eval). The helper semantics the lift uses are hand-transcribed and tied to the code "
-              "by running the table-driven Lean interpreter against the six real entry points on generated expressions.")
-LEVEL_NOTE = ("Trusted: Lean kernel; axioms propext/Classical.choice/Quot.sound only; translate/c11_dispatch.py (regex "
-              "normalisation of case bodies; anything it does not recognise becomes `.other`, which is never coherent); the "
-              "hand transcription of the helpers' operand entry points (XPath::Or/And/plus/…/function*), validated by the "
-              "correspondence run (bounded by generator coverage). Modelled as parameters, not verified here: IEEE "
-              "arithmetic, number<->string conversion, XObject comparison, node string-values, document-order insertion "
-              "(C18/C02/C12). Not modelled: result-tree-fragment values, extension functions' own code, the step/predicate "
-              "evaluator inside location paths (opaque leaves).")
+TECHNIQUE = ("Lean 4 proof over models regenerated from the source on every run by four translators (the six XPath::executeMore "
+             "switches and the overloads they call; XToken members and the static/virtual conversion helpers; the memo members of "
+             "recycled XObjects; the execute overload each XSLT caller uses): coherence decided over the complete finite tables "
+             "and lifted to all expressions by mutual structural induction; plus a correspondence run of the six public "
+             "XPath::execute overloads on one persistent execution context and of the same expressions through a stylesheet")
+LEVEL_TEXT = ("Machine-checked over tables regenerated from XPath.cpp/XPath.hpp/XToken/XObject*/XObjectFactoryDefault/XSLT callers: "
+              "every op code the generic switch handles is handled by the other five (dispatch_total); every (entry point, op "
+              "code) case delivers exactly the standard conversion of the generic value, strings appended (dispatch_coherent, "
+              "dispatch_sound); lifted to every expression over the 41 expression op codes, errors included "
+              "(eval_ep_eq_conv_eval) and to every XSLT caller of the regenerated caller table "
+              "(caller_observes_standard_conversion); literal tokens answer the standard conversions of the value they denote "
+              "(token_*); the conversion helpers are the specified ones (static_conversions_as_specified); a recycled XObject "
+              "answers like a fresh one iff set() clears every memo member, and it does (recycled_*); event chunking is immaterial "
+              "(chars_chunking_admissible). Each run re-evaluates the property itself on ~3 700 (thorough ~21 000) generated and "
+              "boundary cases through the six real entry points and through xsl:if/when, AVT, value-of, xsl:number, for-each, sort.")
+LEVEL_NOTE = ("Trusted: Lean kernel; axioms propext/Quot.sound only; the four translators (regex normalisation by exact match; "
+              "anything unrecognised becomes `.other`, never coherent); the hand transcription of the helpers' operand entry "
+              "points (XPath::Or/And/comparisons/arithmetic/function*), validated by running the table-driven Lean interpreter "
+              "against the real entry points (bounded by generator coverage); harness, generators and the python predicate. "
+              "Parameters of the model, not verified here: IEEE arithmetic, number<->string conversion, XObject comparison, node "
+              "string-values/names, document-order insertion (hypothesis nsAdd [] l = l of the main theorem) — C18/C02/C12. Not "
+              "modelled: XUnknown values, code inside functions/extension functions, the step/predicate evaluator inside location "
+              "paths (opaque leaves), recycling of XResultTreeFrag, text collation in xsl:sort.")
 DESIGN_REF = "DESIGN.md section 5, C11; design/C11.md"
 
 THEOREMS = [
@@ -44,6 +53,8 @@ THEOREMS = [
     "XalanModel.Props.C11.dispatch_sound",
     "XalanModel.Props.C11.eval_ep_eq_conv_eval",
     "XalanModel.Props.C11.chars_chunking_admissible",
+    "XalanModel.Props.C11.callers_entry_points",
+    "XalanModel.Props.C11.caller_observes_standard_conversion",
     "XalanModel.Props.C11.token_coherent",
     "XalanModel.Props.C11.token_conversions_standard",
     "XalanModel.Props.C11.token_boolean_number_literal",
@@ -566,6 +577,8 @@ def run_cases(ctx, hexe, mexe, cases, side, tag):
             stats["cases"] += 1
             bad = predicate(d, buf)
             g = d.get("G", "E")
+            if doc == DOCS[0]:
+                stats.setdefault("api", []).append((cx, k, buf, e.src, d))
             cls = "top:%s" % opname
             nontriv = (e.src, cx, k, buf) if (g not in ("E", "u")) else None
             ctx.case(nontrivial_key=nontriv, sample=inp if stats["cases"] in (3, 40, 200) else None, cls=cls)
@@ -800,6 +813,171 @@ def boundary_cases(thorough):
     return res
 
 
+
+# ------------------------------------------------------------------------------------------------
+# the same comparison through a stylesheet (m_inStylesheet == true; the callers named in the property)
+
+SHEET_VARS = [("t", "true()"), ("f", "false()"), ("n0", "0"), ("n", "2.5"), ("nan", "number('NaN')"), ("s", "'abc'"), ("e", "''"),
+              ("sn", "'12'"), ("ns", "//a"), ("ne", "//zzz"), ("inf", "1 div 0")]
+SHEET_RTFS = [("rt", "12"), ("re", None), ("rtx", "abc")]
+SORT_KEYS = [".", "@a", "string-length()", "count(*)", "number()", "string-length(name())", "- .", "count(.//*) * 2", "'7'", "3",
+             "$n", "$rt", "(.)", "0.0", "$nan", "@id", "$ns", "count(//a) - string-length()"]
+
+
+def sheet_text(cases, sort_keys):
+    from xml.sax.saxutils import quoteattr
+    L = ['<?xml version="1.0" encoding="UTF-8"?>',
+         '<xsl:stylesheet version="1.0" xmlns:xsl="http://www.w3.org/1999/XSL/Transform" xmlns:p="urn:p" xmlns:c11="urn:c11-ext" '
+         'exclude-result-prefixes="p c11">', '<xsl:output method="xml" encoding="UTF-8"/>']
+    for n, e in SHEET_VARS:
+        L.append('<xsl:variable name="%s" select=%s/>' % (n, quoteattr(e)))
+    for n, t in SHEET_RTFS:
+        L.append('<xsl:variable name="%s">%s</xsl:variable>' % (n, t if t is not None else '<xsl:if test="false()">x</xsl:if>'))
+    L.append('<xsl:template match="/"><out>')
+    for i, (cx, k, buf, src, isns) in enumerate(cases):
+        q = quoteattr(src)
+        avt = quoteattr(buf.replace("{", "{{").replace("}", "}}") + "{" + src + "}")
+        L.append('<xsl:for-each select=%s><xsl:if test="position()=%d"><c i="%d">' % (quoteattr(cx), k + 1, i))
+        L.append('<xsl:variable name="g" select=%s/>' % q)
+        L.append('<gb><xsl:value-of select="boolean($g)"/></gb><gs><xsl:value-of select="string($g)"/></gs>'
+                 '<gn><xsl:value-of select="number($g)"/></gn>')
+        L.append('<b><xsl:if test=%s>1</xsl:if></b>' % q)
+        L.append('<w><xsl:choose><xsl:when test=%s>1</xsl:when><xsl:otherwise>0</xsl:otherwise></xsl:choose></w>' % q)
+        L.append('<s v=%s/>' % avt)
+        L.append('<v><xsl:value-of select=%s/></v>' % q)
+        L.append('<n><xsl:number value=%s/></n><ng><xsl:number value="number($g)"/></ng>' % q)
+        if isns:
+            L.append('<l><xsl:for-each select=%s><i><xsl:value-of select="generate-id()"/></i></xsl:for-each></l>' % q)
+            L.append('<lg><xsl:for-each select="$g"><i><xsl:value-of select="generate-id()"/></i></xsl:for-each></lg>')
+        L.append('</c></xsl:if></xsl:for-each>')
+    for i, key in enumerate(sort_keys):
+        q = quoteattr(key)
+        L.append('<sort i="%d"><xsl:for-each select="//*"><xsl:sort select=%s data-type="number"/>'
+                 '<k><xsl:value-of select="number(%s)"/></k></xsl:for-each></sort>' % (i, q, key.replace("&", "&amp;").replace("<", "&lt;").replace('"', "&quot;")))
+    L.append('</out></xsl:template></xsl:stylesheet>')
+    return "\n".join(L)
+
+
+def run_sheet(cli, work, doc, cases, sort_keys, tag):
+    import xml.etree.ElementTree as ET
+    dp = os.path.join(work, "c11_%s.xml" % tag)
+    sp = os.path.join(work, "c11_%s.xsl" % tag)
+    open(dp, "w", encoding="utf-8").write(doc)
+    open(sp, "w", encoding="utf-8").write(sheet_text(cases, sort_keys))
+    p = subprocess.run([cli, dp, sp], stdout=subprocess.PIPE, stderr=subprocess.PIPE, timeout=600)
+    if p.returncode != 0:
+        return None, p.stderr.decode("utf-8", "replace")[-600:]
+    try:
+        return ET.fromstring(p.stdout), ""
+    except ET.ParseError as ex:
+        return None, "output does not parse: %s" % ex
+
+
+def sheet_check(c, case, api):
+    """-> (property failures [(caller, what)], cross differences with the API run)"""
+    cx, k, buf, src, isns = case
+    def tx(tag):
+        el = c.find(tag)
+        return "" if el is None or el.text is None else el.text
+    bad, cross = [], []
+    gb, gs = tx("gb"), tx("gs")
+    if (tx("b") == "1") != (gb == "true"):
+        bad.append(("ElemIf", "xsl:if test takes the %s branch, boolean($g) is %s" % ("true" if tx("b") == "1" else "false", gb)))
+    if (tx("w") == "1") != (gb == "true"):
+        bad.append(("ElemChoose", "xsl:when test is %s, boolean($g) is %s" % (tx("w"), gb)))
+    sv = c.find("s").get("v") if c.find("s") is not None else None
+    if sv != buf + gs:
+        bad.append(("AVTPartXPath", "attribute value template gives %r, expected %r (= %r + string($g))" % (sv, buf + gs, buf)))
+    if tx("v") != gs:
+        bad.append(("ElemValueOf", "xsl:value-of writes %r, string($g) is %r" % (tx("v"), gs)))
+    if tx("n") != tx("ng"):
+        bad.append(("ElemNumber", "xsl:number value= formats %r, for number($g) it formats %r" % (tx("n"), tx("ng"))))
+    if isns:
+        l = [x.text for x in c.find("l")] if c.find("l") is not None else None
+        lg = [x.text for x in c.find("lg")] if c.find("lg") is not None else None
+        if l != lg:
+            bad.append(("ElemForEach", "xsl:for-each select visits %s, over the variable it visits %s" % (l, lg)))
+    if api is not None and api.get("GS") not in (None, "E"):
+        if un16(api["GS"]) != gs:
+            cross.append(("string", un16(api["GS"]), gs))
+        if api.get("GB") in ("0", "1") and (api["GB"] == "1") != (gb == "true"):
+            cross.append(("boolean", api["GB"], gb))
+    return bad, cross
+
+
+def stylesheet_stream(ctx, api_cases, doc, limit):
+    """api_cases: [(cx, k, buf, src, reply dict)] of the raw-API run on `doc`"""
+    cli = os.path.join(common.build_dir("hooks"), "src", "xalanc", "Xalan")
+    work = os.path.join(common.CACHE, "work")
+    os.makedirs(work, exist_ok=True)
+    sel = []
+    seen = set()
+    # round-robin over (top op code, kind of generic value) so that every construct and every value kind gets through
+    groups = {}
+    for a in api_cases:
+        groups.setdefault((a[4].get("op"), a[4].get("G", "E")[:1]), []).append(a)
+    order = []
+    while any(groups.values()):
+        for key in sorted(groups, key=str):
+            if groups[key]:
+                order.append(groups[key].pop(0))
+    for cx, k, buf, src, d in order:
+        g = d.get("G", "E")
+        if g in ("E", "u", "null") or "c11:" in src or (src, cx, k, buf) in seen:
+            continue
+        seen.add((src, cx, k, buf))
+        sel.append(((cx, k, buf, src, g.startswith("l:")), d))
+        if len(sel) >= limit:
+            break
+    st = {"cases": 0, "errors": [], "cross": [], "viol": 0, "sort": 0, "sort_bad": []}
+
+    def process(batch, sort_keys, tag, depth=0):
+        root, err = run_sheet(cli, work, doc, [c for c, _ in batch], sort_keys, tag)
+        if root is None:
+            if len(batch) > 1 and depth < 12:
+                h = len(batch) // 2
+                process(batch[:h], [], tag, depth + 1)
+                process(batch[h:], [], tag, depth + 1)
+            else:
+                st["errors"].append({"case": batch[0][0] if batch else sort_keys, "stderr": err})
+            return
+        got = {int(c.get("i")): c for c in root.findall("c")}
+        for i, (case, d) in enumerate(batch):
+            c = got.get(i)
+            if c is None:
+                st["errors"].append({"case": case, "stderr": "no output for this case (context not reached)"})
+                continue
+            st["cases"] += 1
+            bad, cross = sheet_check(c, case, d)
+            ctx.case(nontrivial_key=("sheet",) + case[:4], cls="sheet:" + ("nodeset" if case[4] else "value"))
+            for caller, what in bad:
+                st["viol"] += 1
+                inp = {"sheet": True, "doc": doc, "context_list": case[0], "context_index": case[1], "supplied_string": case[2],
+                       "expr": case[3], "is_nodeset": case[4]}
+                ctx.fail("sheet-disagree[%s]: %s @%s[%d]" % (caller, case[3], case[0], case[1]), what, inp)
+            for x in cross:
+                st["cross"].append({"case": case, "diff": x})
+        for s in root.findall("sort"):
+            vals = []
+            for kx in s.findall("k"):
+                t = kx.text or ""
+                try:
+                    vals.append(float(t.replace("Infinity", "inf")))
+                except ValueError:
+                    vals.append(float("nan"))
+            fin = [v for v in vals if v == v]
+            st["sort"] += 1
+            if any(b < a for a, b in zip(fin, fin[1:])):
+                key = sort_keys[int(s.get("i"))]
+                st["sort_bad"].append({"key": key, "order": vals})
+                ctx.fail("sheet-disagree[NodeSorter]: xsl:sort select=%s data-type=number" % key,
+                         "nodes come out in an order that is not ascending in number(key): %s" % vals[:20],
+                         {"sheet": True, "doc": doc, "sort_key": key})
+    for b0 in range(0, len(sel), 250):
+        process(sel[b0:b0 + 250], SORT_KEYS if b0 == 0 else [], "sheet%d" % (b0 // 250))
+    return st
+
+
 def corpus_cases():
     """minimised past failures first (gen/corpus/c11/*.json)"""
     res = []
@@ -827,7 +1005,8 @@ def run(ctx):
     ok_t, out_t = ctx.translate("c11_dispatch")
     ok_c, out_c = ctx.translate("c11_caches")
     ok_k, out_k = ctx.translate("c11_token")
-    ok_t = ok_t and ok_c and ok_k
+    ok_l, out_l = ctx.translate("c11_callers")
+    ok_t = ok_t and ok_c and ok_k and ok_l
     side = None
     sp = os.path.join(common.CACHE, "c11_dispatch.json")
     if ok_t and os.path.exists(sp):
@@ -875,7 +1054,18 @@ def run(ctx):
                         cases.append((0, DOCS[0], cx, k, buf, gen_top(r2, opkey, r2.below(2))))
         cases.sort(key=lambda c: c[0])
     st = run_cases(ctx, hexe, mexe, cases, side, "main")
+    api_cases = st.pop("api", [])
     ctx.extra["stream"] = {k: (v if not isinstance(v, list) else len(v)) for k, v in st.items()}
+    # the same expressions through a stylesheet: ElemVariable (generic), ElemIf/ElemChoose (bool), AVTPartXPath (string),
+    # ElemValueOf (events), ElemNumber/NodeSorter (number), ElemForEach (node list); literals are XToken-backed objects there
+    sh = stylesheet_stream(ctx, api_cases, DOCS[0], 900 if not ctx.thorough else 6000)
+    ctx.extra["stylesheet_stream"] = {k: (v if not isinstance(v, list) else len(v)) for k, v in sh.items()}
+    ctx.oblige("stylesheet stream: every selected expression evaluates in the stylesheet as it did through the API (no transformation error)",
+               "correspondence", not sh["errors"], json.dumps(sh["errors"][:3])[:1500])
+    ctx.oblige("stylesheet stream: string()/boolean() of the generic value in the stylesheet (m_inStylesheet) = through the XPath API",
+               "correspondence", not sh["cross"], json.dumps(sh["cross"][:3])[:1500])
+    ctx.oblige("stylesheet stream is not vacuous (>= 300 cases, >= 10 sort keys)", "coverage", sh["cases"] >= 300 and sh["sort"] >= 10,
+               str({k: v for k, v in sh.items() if not isinstance(v, list)}))
     if mexe:
         ctx.oblige("correspondence: six real entry points = table-driven Lean interpreter (evalAs Generated.table) on every generated case",
                    "correspondence", not st["model_dis"], json.dumps(st["model_dis"][:3])[:1800])
@@ -901,6 +1091,29 @@ def replay(ctx, path):
         print("replay file names broken obligations only:", [o["name"] for o in d.get("broken_obligations", [])])
         return 1
     ctx.build("hooks")
+    if inp.get("sheet"):
+        cli = os.path.join(common.build_dir("hooks"), "src", "xalanc", "Xalan")
+        work = os.path.join(common.CACHE, "work")
+        os.makedirs(work, exist_ok=True)
+        if "sort_key" in inp:
+            root, err = run_sheet(cli, work, inp["doc"], [], [inp["sort_key"]], "replay")
+            print("sort key:", inp["sort_key"], "->", [k.text for k in root.iter("k")] if root is not None else err)
+            return 1
+        case = (inp["context_list"], inp["context_index"], inp["supplied_string"], inp["expr"], inp.get("is_nodeset", False))
+        root, err = run_sheet(cli, work, inp["doc"], [case], [], "replay")
+        if root is None:
+            print("transformation failed:", err)
+            return 1
+        import xml.etree.ElementTree as ET
+        c = root.find("c")
+        print("stylesheet case:", case)
+        print("output:", ET.tostring(c, encoding="unicode") if c is not None else None)
+        bad, _ = sheet_check(c, case, None) if c is not None else ([("?", "no output")], [])
+        for caller, what in bad:
+            print("PROPERTY VIOLATED [%s]: %s" % (caller, what))
+        if not bad:
+            print("property holds on this input")
+        return 1 if bad else 0
     hexe = common.build_harness("c11_entrypoints", ["c11_entrypoints.cpp"], flavor="hooks")
     H = Harness(hexe)
     H.ask("doc " + hx8(inp["doc"]))
